@@ -211,6 +211,7 @@ int p_codec(void)
 			uint64_t nullmask = (g_pf.mon & (MON_C07 | MON_C08)) ? rng_u64(&r) & rng_u64(&r) : 0;
 			if (!rep_case("encode codec=%s k=%u r=%u L=%u N1=%u seed=%u payload=%d nullslots=0x%llx", codec_name(&c), c.k, c.r, c.L, c.N1, c.seed, payload, (unsigned long long)nullmask)) {
 				/* replay / resume filter: the block is still needed for the cases that follow */
+				if (rep_is_resume_point()) continue;      /* the previous run died while building this very block: skip the unit */
 				const char *sv = g_prop; g_prop = ""; int rc0 = block_build(&b, &c, payload, &r, 0, -1); g_prop = sv;
 				if (rc0) { block_free(&b); continue; }
 			} else {
